@@ -17,6 +17,10 @@ ASSUMPTIONS = [
     "magnitudes beyond the TLC domains are reached by the scale-equivariant concretisations x10^+-6 of prices+fees "
     "or quantities+fees of the same behaviours, not by new behaviours",
     "trade ids are distinct per fill; fills of one instrument reach the engine one at a time",
+    "'a position-closed record is emitted' is judged on what the engine emits: the EngineOutput::PositionExit entries of "
+    "the audit returned by Engine::process, with trading disabled (route engine) and with trading enabled, healthy "
+    "execution links and a strategy that sends an order in every step (route algo)",
+    "market events (priced, and such that leave the instrument without a price) are stutters for everything C02 names",
 ]
 
 
@@ -31,13 +35,26 @@ def check(ctx):
     p_f, scn_f = P.generate(ctx, "GenF_Position.cfg", "fills_random.ndjson", simulate=(nb, 14))
     ctx.sample({"kind": "TLC exhaustive fill behaviour with expected states", "scenario": scn_x[len(scn_x) // 3]})
     ctx.sample({"kind": "TLC simulated fill behaviour (first 4 fills)", "scenario": {"evs": scn_f[0]["evs"][:4]}})
-    for mode in ("pm", "state", "engine"):
+    # (iii) fills interleaved with market events - priced ones and events after which the data state
+    #       has NO price (candles, liquidations, one-sided / empty L1), also before any priced event:
+    #       a market event never changes side, size, realised PnL, fees, ids and never emits a record
+    nm = 400 if ctx.quick else 6000
+    p_m, scn_m = P.generate(ctx, "GenMP_Position.cfg", "market_interleavings.ndjson", simulate=(nm, 18))
+    ctx.sample({"kind": "TLC simulated interleaving of fills and market events (first 5 steps)",
+                "scenario": {"evs": scn_m[0]["evs"][:5]}})
+    # routes: pm = PositionManager, state = EngineState::update_from_account/_market, engine = Engine::process
+    # (trading disabled), algo = Engine::process with trading ENABLED and a strategy ordering in every
+    # step - closed records are the PositionExit entries of the EMITTED audit
+    for mode in ("pm", "state", "engine", "algo"):
         P.replay_results(ctx, "c02", "c02", p_x, len(scn_x), mode, "none", "exhaustive")
         for scale in P.SCALES:
             P.replay_results(ctx, "c02", "c02", p_f, len(scn_f), mode, scale, "random")
-    # (iii) impl -> spec: seeded random engine runs on two instruments, validated by Trace_Position
-    steps = 3000 if ctx.quick else 60000
-    for mode in ("state", "engine"):
+        if mode != "pm":
+            P.replay_results(ctx, "c02", "c02", p_m, len(scn_m), mode, "none", "interleavings")
+    P.replay_results(ctx, "c02", "c02", p_m, len(scn_m), "instr", "none", "interleavings")
+    # (iv) impl -> spec: seeded random engine runs on two instruments, validated by Trace_Position
+    steps = 2000 if ctx.quick else 40000
+    for mode in ("state", "engine", "algo"):
         P.record_and_validate(ctx, "c02", "c02", mode, steps)
     return ctx.finish()
 
